@@ -59,7 +59,12 @@ def inverseAll (sb : SBits) (bitDepth : Nat) (wp : Wp) (ts : List Transform) (ch
   ts.reverse.foldl (inverseOne sb bitDepth wp) chans
 
 /-- forward of one (resolved) transform; palette needs the palette table (`pals` supplies one per
-palette transform, consumed in order) and maps every pixel to the first matching explicit entry -/
+palette transform, consumed in order) and maps every pixel to the first matching explicit entry
+that is **not a delta entry** (`nbDeltas ≤ k < nbColours`: the decoder adds a prediction to every
+pixel whose index is below `nbDeltas`, and this encoder never codes prediction residuals through
+the palette; before this restriction the search started at 0 and a chain with `nbDeltas > 0` was
+accepted although the decoder does not give the pixels back — `Props/C03.lean`,
+`C03_palette_forward_needs_nondelta`) -/
 def forwardOne (sb : SBits) (chans : List Chan) (pal : Option Chan) : Transform → Option (List Chan)
   | .rct b t =>
     match chans[b]?, chans[b + 1]?, chans[b + 2]? with
@@ -67,12 +72,13 @@ def forwardOne (sb : SBits) (chans : List Chan) (pal : Option Chan) : Transform 
       let (a, bb, c) := rctForward t x y z
       some (((chans.set b a).set (b + 1) bb).set (b + 2) c)
     | _, _, _ => none
-  | .palette b n nbc _ _ =>
+  | .palette b n nbc nbd _ =>
     match pal, chans[b]? with
     | some pal, some c0 =>
       let srcs := (chans.drop b).take n
       let find := fun (x y : Nat) =>
-        (List.range nbc).find? fun k => (List.range n).all fun c => (srcs.getD c default).get x y == pal.get k c
+        (List.range nbc).find? fun k =>
+          decide (nbd ≤ k) && (List.range n).all fun c => (srcs.getD c default).get x y == pal.get k c
       let idxs := (List.range (c0.w * c0.h)).map fun i => find (i % c0.w) (i / c0.w)
       if idxs.all Option.isSome then
         let idx : Chan := { w := c0.w, h := c0.h, data := (idxs.map fun o => ((o.getD 0 : Nat) : Int)).toArray }
